@@ -216,7 +216,8 @@ func (m *monitor) hook(_ *sim.View, ev *sim.Event) {
 
 // exec is one simulated cluster with the real establisher of the revision controller.
 type exec struct {
-	intruded bool // a third party acts during the current op
+	intruded bool  // a third party acts during the current op
+	baseRV   int64 // the store's resource version before any object of the package existed
 	c        *kit.Ctx
 	caseName string
 	desc     any
@@ -311,13 +312,20 @@ func newExec(c *kit.Ctx, caseName string, desc any, kindName string, seed uint64
 	cr.SetName(foreignName)
 	must(x.setup.Create(bg, cr))
 	x.foreignUID = string(cr.GetUID())
+	x.baseRV = x.w.RV()
 	return x
+}
+
+// relag rebuilds the establisher over a client whose reads lag as given.
+func (x *exec) relag(lag func(gk schema.GroupKind) (int64, bool)) {
+	x.cl = x.w.LaggingClient(actorRev, lag)
+	x.est = revision.NewAPIEstablisher(mgrClient{x.cl}, nsXP, x.conc)
 }
 
 // fork continues on an independent copy of the cluster (fault enumeration).
 func (x *exec) fork(caseName string) *exec {
 	n := &exec{c: x.c, caseName: caseName, desc: x.desc, kind: x.kind, conc: x.conc,
-		pkgUID: x.pkgUID, otherUID: x.otherUID, otherRevUID: x.otherRevUID, foreignUID: x.foreignUID,
+		baseRV: x.baseRV, pkgUID: x.pkgUID, otherUID: x.otherUID, otherRevUID: x.otherRevUID, foreignUID: x.foreignUID,
 		revs: map[string]*revInfo{}, rejected: x.rejected, stats: map[string]int64{}}
 	for k, v := range x.revs {
 		cp := *v
